@@ -141,6 +141,8 @@ InterpLaws == (phase = "kv" /\ c.k = "kvtab") =>
 
 \* ---- tabulated data: every table with 2..4 nodes on an uneven grid -------------------------
 XVals == {0, 1, 2, 4, 7}
+TabScalesX == {<<1, 64>>, <<8, 1>>, <<3, 5>>}             \* positive: the grid stays ascending
+TabScalesY == {<<1, 32>>, <<0 - 3, 4>>}
 YVals == {-1, 0, 2, 3}
 InitD == Blank
 ChooseGrid == /\ phase = "start"
@@ -159,6 +161,15 @@ TableLaws == phase = "tab" =>
     /\ (n = 2) => c.linear
     \* the interpolant is continuous: both neighbouring segments give the node value
     /\ \A i \in 2..(n - 1) : QInterp(<<c.tab[i - 1], c.tab[i]>>, c.tab[i].x) = QInterp(<<c.tab[i], c.tab[i + 1]>>, c.tab[i].x)
+    \* scale covariance in x and in y (what the replay relies on when it transports a table to the units 2^-60 .. 2^60):
+    \* interpolant at the transported quarter, mid and end point of every segment, integral, linearity
+    /\ \A sx \in TabScalesX : \A sy \in TabScalesY :
+          LET t2 == QScaleTab(c.tab, sx, sy) IN
+          /\ QTrapz(t2) = RMul(RMul(sx, sy), c.trapz)
+          /\ QIsLinear(t2) = c.linear
+          /\ \A i \in 1..(n - 1) : \A k \in {1, 2, 4} :
+                LET q == RAdd(c.tab[i].x, RMul(<<k, 4>>, RSub(c.tab[i + 1].x, c.tab[i].x)))
+                IN QInterp(t2, RMul(sx, q)) = RMul(sy, QInterp(c.tab, q))
 
 \* ---- the QGauss object ----------------------------------------------------------------
 InitC == Blank
